@@ -342,6 +342,13 @@ func (fv *FV) ret(e *Env, s *ast.ReturnStmt) {
 			if k == kScalar && vals[i].K == kScalar && vals[i].T.Sort != srt {
 				vals[i] = fv.coerce(vals[i], srt)
 			}
+			if k == kSlice && vals[i].K != kSlice {
+				if vals[i].T.S == "null" {
+					vals[i] = Value{K: kSlice, T: tNull, Off: intLit(0), Len: intLit(0), Cap: intLit(0), Type: res.At(i).Type()}
+				} else {
+					vals[i] = fv.freshValue(res.At(i).Type(), "ret")
+				}
+			}
 		}
 	}
 	// named results are assigned (visible to deferred closures)
@@ -548,10 +555,11 @@ type writeSet struct {
 	heapComps map[string]bool
 	compBases map[string]map[types.Object]bool // comps written only through these local bases
 	compWide  map[string]bool                  // comps written through something else too
+	compFresh map[string]bool                  // comps written by allocations only (append, make, new, literals)
 }
 
 func (fv *FV) writesOf(n ast.Node) *writeSet {
-	ws := &writeSet{vars: map[types.Object]bool{}, heapComps: map[string]bool{}, compBases: map[string]map[types.Object]bool{}, compWide: map[string]bool{}}
+	ws := &writeSet{vars: map[types.Object]bool{}, heapComps: map[string]bool{}, compBases: map[string]map[types.Object]bool{}, compWide: map[string]bool{}, compFresh: map[string]bool{}}
 	addComps := func(cs []string, all bool) {
 		if all {
 			ws.heapAll = true
@@ -597,8 +605,13 @@ func (fv *FV) writesOf(n ast.Node) *writeSet {
 			return nil
 		}
 		o, ok := fv.info.ObjectOf(id).(*types.Var)
-		if !ok || isPkgLevel(o) || fv.boxed[o] || isObjectType(o.Type()) {
+		if !ok || isPkgLevel(o) || fv.boxed[o] {
 			return nil
+		}
+		if isObjectType(o.Type()) {
+			if _, isSel := x.(*ast.SelectorExpr); !isSel {
+				return nil
+			}
 		}
 		return o
 	}
@@ -677,6 +690,19 @@ func (fv *FV) writesOf(n ast.Node) *writeSet {
 				markLHS(s.Value)
 			}
 		case *ast.CallExpr:
+			if id, ok := ast.Unparen(s.Fun).(*ast.Ident); ok && (id.Name == "append" || id.Name == "make" || id.Name == "new") {
+				if _, isB := fv.info.Uses[id].(*types.Builtin); isB {
+					cs, all := fv.callWriteComps(s)
+					if all {
+						ws.heapAll = true
+					}
+					for _, c := range cs {
+						ws.heapComps[c] = true
+						ws.compFresh[c] = true
+					}
+					return true
+				}
+			}
 			if id, ok := ast.Unparen(s.Fun).(*ast.Ident); ok && id.Name == "delete" && len(s.Args) == 2 {
 				if mid, ok := ast.Unparen(s.Args[0]).(*ast.Ident); ok {
 					if o := fv.info.ObjectOf(mid); o != nil && fv.localMaps[o] {
@@ -688,6 +714,24 @@ func (fv *FV) writesOf(n ast.Node) *writeSet {
 			addComps(fv.callWriteComps(s))
 		case *ast.CompositeLit:
 			if t := fv.typeOf(s); t != nil {
+				markFresh := func(cs []string) {
+					for _, c := range cs {
+						ws.heapComps[c] = true
+						ws.compFresh[c] = true
+					}
+				}
+				switch u := deref(t).Underlying().(type) {
+				case *types.Struct:
+					markFresh(leafComps(deref(t)))
+					return true
+				case *types.Slice:
+					if isObjectType(u.Elem()) {
+						markFresh(leafComps(u.Elem()))
+					} else {
+						markFresh(cellComps("E$"+sanitize(elemKey(u.Elem())), u.Elem()))
+					}
+					return true
+				}
 				switch u := deref(t).Underlying().(type) {
 				case *types.Struct:
 					addComps(leafComps(deref(t)), false)
@@ -756,6 +800,12 @@ func (fv *FV) havocWrites(e *Env, ws *writeSet) {
 	}
 	for _, c := range sortedBoolKeys(ws.heapComps) {
 		bases := ws.compBases[c]
+		if ws.compFresh[c] && !ws.compWide[c] {
+			// written only at freshly allocated objects (and possibly through stable local bases):
+			// every object allocated before the loop keeps its contents, except the bases
+			fv.havocCompFresh(e, c, bases)
+			continue
+		}
 		precise := !ws.compWide[c] && len(bases) > 0
 		for b := range bases {
 			if ws.vars[b] {
@@ -772,6 +822,39 @@ func (fv *FV) havocWrites(e *Env, ws *writeSet) {
 		fv.havocCompAt(e, c, bases)
 	}
 	fv.havocAlloc(e)
+}
+
+// havocCompFresh forgets component c except at objects that were allocated
+// before the loop (other than the given bases).
+func (fv *FV) havocCompFresh(e *Env, c string, bases map[types.Object]bool) {
+	srt, ok := fv.compSort[c]
+	if !ok {
+		v, ok2 := staticSorts.Load(c)
+		if !ok2 {
+			fv.havocComp(e, c)
+			return
+		}
+		srt = v.(string)
+		fv.compSort[c] = srt
+	}
+	cur := fv.heapGet(e, c, srt)
+	n := fv.s.freshConst(c, srt)
+	var excl []string
+	for b := range bases {
+		if v, ok := e.vars[b]; ok {
+			excl = append(excl, fmt.Sprintf("(not (= r %s))", v.T.S))
+		} else {
+			fv.havocComp(e, c)
+			return
+		}
+	}
+	sort.Strings(excl)
+	guard := fmt.Sprintf("(select %s (root r))", e.alloc.S)
+	if len(excl) > 0 {
+		guard = "(and " + guard + " " + strings.Join(excl, " ") + ")"
+	}
+	fv.s.assume(Term{fmt.Sprintf("(forall ((r Ref)) (! (=> %s (= (select %s r) (select %s r))) :pattern ((select %s r))))", guard, n.S, cur.S, n.S), sBool})
+	fv.heapSet(e, c, n)
 }
 
 // havocCompAt forgets component c only at the objects held by the given local
